@@ -322,6 +322,14 @@ func extract(repo string, it Item) (sourceTxt, lean string, err error) {
 		return "", "", fmt.Errorf("const %s not found", parts[1])
 	}
 
+	if it.Sel == "locks" {
+		t := locksOf(f)
+		return fmt.Sprintf("%d methods", strings.Count(t, "\n(")+1), t, nil
+	}
+	if kind == "fielduses" {
+		t, err := fieldUses(repo, it.File, strings.Split(parts[1], ","))
+		return fmt.Sprintf("%d uses", strings.Count(t, "\n(")+map[bool]int{true: 0, false: 1}[t == "[]"]), t, err
+	}
 	if it.Sel == "sites" {
 		t := sitesOf(f)
 		return fmt.Sprintf("%d sites", strings.Count(t, "\n(")+1), t, nil
